@@ -64,6 +64,9 @@ fn seq_bounds(tier: &str) -> Vec<(usize, usize, usize)> {
 /// keys of a type whose Hash maps every key to the same value (`flavor::HK`).
 const COLLIDE_COPY: [&str; 9] = ["C01", "C02", "C03", "C11", "C12", "C15", "C18", "C19", "C20"];
 
+/// Properties whose graphs are built by `gsweep::build_world` outside gsweep's own plan.
+const CHURN_COPY: [&str; 4] = ["C11", "C12", "C15", "C20"];
+
 pub fn plan(prop: &str, tier: &str) -> Option<Plan> {
     let mut p = plan_inner(prop, tier)?;
     if COLLIDE_COPY.contains(&prop) {
@@ -85,6 +88,28 @@ pub fn plan(prop: &str, tier: &str) -> Option<Plan> {
         }
         p.jobs.extend(extra);
         p.rule += " The smallest job group of every flavour is run a second time with keys of a type whose Hash maps every key to the same value (identity must be decided by Eq).";
+    }
+    if CHURN_COPY.contains(&prop) {
+        let mut firsts: Vec<(String, String, Value)> = Vec::new();
+        for j in &p.jobs {
+            if j.params.get("collide").is_none() && !firsts.iter().any(|(e, f, _)| *e == j.engine && *f == j.flavour) {
+                firsts.push((j.engine.clone(), j.flavour.clone(), j.params.clone()));
+            }
+        }
+        let mut extra = Vec::new();
+        for churn in 1..=3u8 {
+            for j in &p.jobs {
+                if firsts.iter().any(|(e, f, pa)| *e == j.engine && *f == j.flavour && *pa == j.params) {
+                    let mut c = Job { property: j.property.clone(), engine: j.engine.clone(), flavour: j.flavour.clone(), tier: j.tier.clone(), params: j.params.clone(), shard: j.shard, nshards: j.nshards, trace: j.trace };
+                    if let Some(o) = c.params.as_object_mut() {
+                        o.insert("churn".into(), json!(churn));
+                        extra.push(c);
+                    }
+                }
+            }
+        }
+        p.jobs.extend(extra);
+        p.rule += " The smallest job group of every flavour is also run with every graph reached from a non-initial state (a complete mesh connected and disconnected / isolated first; a temporary edge around every connect), see gsweep::build_world.";
     }
     Some(p)
 }
@@ -420,6 +445,7 @@ fn plan_inner(prop: &str, tier: &str) -> Option<Plan> {
 
 pub fn work(job: &Job, out: &mut Out) {
     crate::flavor::set_collide(job.params.get("collide").and_then(|v| v.as_u64()).unwrap_or(0) as u8);
+    gsweep::set_churn(job.params.get("churn").and_then(|v| v.as_u64()).unwrap_or(0) as u8);
     match job.engine.as_str() {
         "seqx" => crate::with_flavor!(job.flavour.as_str(), F => seqx::explore::<F>(job, out)),
         "gsweep" => crate::with_flavor!(job.flavour.as_str(), F => gsweep::sweep::<F>(job, out)),
@@ -445,6 +471,7 @@ pub fn work(job: &Job, out: &mut Out) {
 
 pub fn replay(property: &str, engine: &str, flavour: &str, case: &Value) -> Vec<Violation> {
     crate::flavor::set_collide(case.get("collide").and_then(|v| v.as_u64()).unwrap_or(0) as u8);
+    gsweep::set_churn(case.get("churn").and_then(|v| v.as_u64()).unwrap_or(0) as u8);
     match engine {
         "seqx" => crate::with_flavor!(flavour, F => seqx::replay::<F>(property, case)),
         "gsweep" => crate::with_flavor!(flavour, F => gsweep::replay::<F>(property, case)),
